@@ -27,7 +27,8 @@ structure St where
   pending : List (Bytes × Nat) := []
   savedPending : List (Nat × List (Bytes × Nat)) := []
   ckptN : Nat := 0
-  wm : Option Nat := none
+  /-- composite watermark in ns since the epoch; a new deployment starts at the epoch (`NewTimerRegistry`, fix D58) -/
+  wm : Nat := 0
 
 def showEntries (es : List (Bytes × Bytes)) : String :=
   joinWith "," (es.map fun e => toHex e.1 ++ "=" ++ toHex e.2)
@@ -72,13 +73,10 @@ def splitFeed : List String → List String × List String
   | "##" :: rest => ([], rest)
   | w :: rest => let (a, b) := splitFeed rest; (w :: a, b)
 
-/-- `SetTimer`'s guard: only timers after the composite watermark are stored -/
-def guardOK (wm : Option Nat) (t : Nat) : Bool :=
-  match wm with
-  | none => true
-  | some w => w < t
+/-- `SetTimer`'s guard: only timers strictly after the composite watermark are stored -/
+def guardOK (wm : Nat) (t : Nat) : Bool := wm < t
 
-def applyGuard (wm : Option Nat) (res : List KeyResult) : List KeyResult :=
+def applyGuard (wm : Nat) (res : List KeyResult) : List KeyResult :=
   res.map fun kr => { kr with timers := kr.timers.filter (guardOK wm) }
 
 def addPending (p : List (Bytes × Nat)) (res : List KeyResult) : List (Bytes × Nat) :=
@@ -132,18 +130,18 @@ def step (st : St) (line : List String) : St × String :=
     let (res, r2) := parseResults rest
     if r2.isEmpty then
       let T := natOr t
-      let res := applyGuard (some T) res
+      let res := applyGuard T res
       let due := st.pending.filter (fun p => p.2 ≤ T)
       let chunks := parseFiring impl
       let fired := chunks.flatten
       let valid := fired.length == due.length && fired.all due.contains && fired.eraseDups.length == fired.length &&
         chunksOK st.batch chunks
-      if !valid then ({ st with wm := some T }, "bad-firing due=" ++ showFired due)
-      else if chunks.isEmpty then ({ st with wm := some T }, "none")
+      if !valid then ({ st with wm := T }, "bad-firing due=" ++ showFired due)
+      else if chunks.isEmpty then ({ st with wm := T }, "none")
       else
         let (ops', outs) := runChunks st.kgc st.ops chunks res
         let rest := st.pending.filter (fun p => !(p.2 ≤ T))
-        ({ st with ops := ops', wm := some T, pending := addPending rest res }, joinWith " | " outs)
+        ({ st with ops := ops', wm := T, pending := addPending rest res }, joinWith " | " outs)
     else (st, "bad-op")
   | ["ckpt"] =>
     let id := st.ckptN + 1
@@ -157,7 +155,7 @@ def step (st : St) (line : List String) : St × String :=
     | none => (st, "no-checkpoint")
     | some _ =>
       ({ st with ops := (opStep st.kgc st.ops (.restore id)).1, pending := (lookupCkpt st.savedPending id).getD [],
-                 savedPending := keepOnly st.savedPending id, wm := none }, "ok")
+                 savedPending := keepOnly st.savedPending id, wm := 0 }, "ok")
   | ["rot"] => (st, "ok")
   | ["wait"] => (st, "ok")
   | ["prefixfree", _, _, _, _] => (st, "ok")      -- C03.subject_prefix_free
